@@ -62,12 +62,12 @@ def two_process_experiment(ctx, seed, quick):
                         first = "first difference at call %d: %s vs %s" % (i + 1, json.dumps(base[k][i])[:200], json.dumps(other[k][i])[:200])
                     ctx.violation("repro.two_processes", "config=%s" % k,
                                   "seed %d, process '%s' (%s) vs plain process: %s" % (
-                                      s, variant, {"noisy": "decoy objects, junk allocations and a delay before seeding",
+                                      s, variant, {"noisy": "decoy objects, junk allocations, a delay before seeding and a wall clock that jumps an hour per reading",
                                                    "plain2": "second identical run",
                                                    "dupsame": "every observation delivered twice as the SAME dict object; reference: twice as equal copies"}[variant], first),
                                   {"config": k, "seed": s, "variant": variant, "calls": n})
     ctx.sample({"experiment": "two fresh interpreter processes", "configs": sorted(base)[:6], "one_result": {k: base[k][-1] for k in list(base)[:1] if not isinstance(base[k], str)}})
-    ctx.add_stage("literal experiment: %d seeds x {identical second process, process with decoy objects / junk / delay before "
+    ctx.add_stage("literal experiment: %d seeds x {identical second process, process with decoy objects / junk / delay / jumping wall clock before "
                   "seeding, same-object vs equal-copy delivery of repeated observations} x %d explainer-storage-imputer configurations, %d calls each, compared bit for bit after every call"
                   % (len(seeds), len(base), n), "two_process", comparisons=ncmp)
     ctx.traces += ncmp
